@@ -540,6 +540,153 @@ fn inject(net: &Shared, kind: &str, role_server: bool, script: &Script) {
     }
 }
 
+/// The byte-stream side of the public API: `h3::stream::BufRecvStream` (what h3-webtransport's stream types read
+/// through) over a SimQuic stream that the peer fills with drawn bytes in drawn chunks and ends with FIN, RESET, a
+/// connection close, or not at all. The reader uses one of the three read interfaces - the quic::RecvStream trait,
+/// tokio's AsyncRead with one ReadBuf kept across calls the way read_exact keeps it (messages of drawn lengths read
+/// back to back), or the futures AsyncRead with a slice of drawn size. No call may panic; once the peer has ended
+/// the stream or closed the connection every read must have completed, and what was read is a prefix of what was
+/// written (everything, if the stream ended with FIN).
+fn run_raw_stream_reader(ctx: &RunCtx) -> RunOut {
+    use h3::stream::BufRecvStream;
+    let cfg = NetCfg::drawn();
+    let net = Net::new(cfg);
+    let total = if chance(1, 6) { 200 + draw_usize(800) } else { draw_usize(60) };
+    let bytes = draw_bytes(total);
+    // 0 FIN, 1 RESET, 2 connection close, 3 left open (then the connection is closed in stage 2)
+    let ending = draw(4);
+    {
+        let mut n = net.lock().unwrap();
+        n.raw_open(2);
+        n.raw_write(2, CLIENT, &bytes);
+        match ending {
+            0 => n.raw_fin(2, CLIENT),
+            1 => n.raw_reset(2, CLIENT, *pick(&[0x10cu64, 0, 0x100])),
+            _ => {}
+        }
+    }
+    let recv: net::SimRecv = net::recv_handle(&net, 2, SERVER);
+    let got: Rc<RefCell<(Vec<u8>, Option<String>)>> = Default::default();
+    let mode = draw(3);
+    let mut ex = Exec::new();
+    ex.max_steps = 40_000;
+    ex.spurious = draw(3) == 1;
+    {
+        let got = got.clone();
+        ex.spawn("raw-reader", async move {
+            let mut s: BufRecvStream<net::SimRecv, SimBuf> = BufRecvStream::new(recv);
+            match mode {
+                1 => {
+                    obs::count("probe.raw_stream_read_as_read_exact_does");
+                    // messages of drawn lengths, each read into one ReadBuf that is kept until it is full
+                    loop {
+                        let want = 1 + draw_usize(24);
+                        let mut storage = vec![0u8; want];
+                        let mut filled = 0usize;
+                        while filled < want {
+                            let r = poll_fn(|cx| {
+                                let mut rb = tokio::io::ReadBuf::new(&mut storage);
+                                rb.set_filled(filled);
+                                match tokio::io::AsyncRead::poll_read(std::pin::Pin::new(&mut s), cx, &mut rb) {
+                                    std::task::Poll::Ready(Ok(())) => std::task::Poll::Ready(Ok(rb.filled().len())),
+                                    std::task::Poll::Ready(Err(e)) => std::task::Poll::Ready(Err(e)),
+                                    std::task::Poll::Pending => std::task::Poll::Pending,
+                                }
+                            })
+                            .await;
+                            match r {
+                                Ok(n) if n == filled => {
+                                    got.borrow_mut().0.extend_from_slice(&storage[..filled]);
+                                    got.borrow_mut().1 = Some("end".into());
+                                    return;
+                                }
+                                Ok(n) if n < filled || n > want => {
+                                    got.borrow_mut().1 = Some(format!("BROKEN fill level went from {filled} to {n} (capacity {want})"));
+                                    return;
+                                }
+                                Ok(n) => filled = n,
+                                Err(e) => {
+                                    got.borrow_mut().0.extend_from_slice(&storage[..filled]);
+                                    got.borrow_mut().1 = Some(format!("error: {e}"));
+                                    return;
+                                }
+                            }
+                        }
+                        got.borrow_mut().0.extend_from_slice(&storage);
+                    }
+                }
+                2 => {
+                    let mut storage = vec![0u8; 1 + draw_usize(24)];
+                    loop {
+                        match poll_fn(|cx| futures_util::io::AsyncRead::poll_read(std::pin::Pin::new(&mut s), cx, &mut storage)).await {
+                            Ok(0) => {
+                                got.borrow_mut().1 = Some("end".into());
+                                return;
+                            }
+                            Ok(n) if n > storage.len() => {
+                                got.borrow_mut().1 = Some(format!("BROKEN read reported {n} bytes into a slice of {}", storage.len()));
+                                return;
+                            }
+                            Ok(n) => got.borrow_mut().0.extend_from_slice(&storage[..n]),
+                            Err(e) => {
+                                got.borrow_mut().1 = Some(format!("error: {e}"));
+                                return;
+                            }
+                        }
+                    }
+                }
+                _ => loop {
+                    match poll_fn(|cx| h3::quic::RecvStream::poll_data(&mut s, cx)).await {
+                        Ok(Some(b)) => got.borrow_mut().0.extend_from_slice(&b),
+                        Ok(None) => {
+                            got.borrow_mut().1 = Some("end".into());
+                            return;
+                        }
+                        Err(e) => {
+                            got.borrow_mut().1 = Some(format!("error: {e}"));
+                            return;
+                        }
+                    }
+                },
+            }
+        });
+    }
+    let mut stop = ex.run(&mut NetWorld(net.clone()));
+    let stage1_done = got.borrow().1.is_some();
+    if stop == Stop::Quiescent && (ending >= 2) {
+        net.lock().unwrap().set_fault(SERVER, net::ConnFault::AppClose(0x100));
+        obs::count("fault.peer_close_no_error");
+        stop = ex.run(&mut NetWorld(net.clone()));
+    }
+    if let Some(p) = &ex.panic {
+        if p.in_harness() {
+            return RunOut { harness_error: Some(format!("harness panic: {} at {}", p.msg, p.loc)), ..Default::default() };
+        }
+        return RunOut::fail(Violation::new("C06.panic", format!("h3 panicked in task {}: {} at {} (raw stream of {total} bytes read through interface {mode})", p.task, p.msg, p.loc)).fact("at", p.loc.rsplit('/').next().unwrap_or("")));
+    }
+    if stop == Stop::StepCap {
+        return RunOut::fail(Violation::new("C06.step_cap", "no quiescence (raw stream reader)".to_string()));
+    }
+    let g = got.borrow();
+    if ending < 2 && !stage1_done {
+        return RunOut::fail(Violation::new("C06.stream_call_pending_forever", format!("the peer ended the raw stream ({}) and everything was delivered, but the read through interface {mode} is still pending; {} of {total} bytes read", if ending == 0 { "FIN" } else { "RESET" }, g.0.len())).fact("role", "raw_stream").fact("stage", "1"));
+    }
+    let Some(end) = &g.1 else {
+        return RunOut::fail(Violation::new("C06.call_pending_after_connection_close", format!("the connection was closed, the read of the raw stream through interface {mode} is still pending; {} of {total} bytes read", g.0.len())).fact("role", "raw_stream").fact("stage", "2"));
+    };
+    if end.starts_with("BROKEN") {
+        return RunOut::fail(Violation::new("C06.read_interface_contract", format!("{end} (interface {mode})")).fact("role", "raw_stream"));
+    }
+    if !bytes.starts_with(&g.0) || (ending == 0 && (g.0.len() != total || end != "end")) {
+        return RunOut::fail(Violation::new("C06.raw_stream_bytes_wrong", format!("peer wrote {total} bytes and {}; the reader (interface {mode}) got {} bytes ({}) and then {end}", (["finished", "reset", "left the stream open", "left the stream open"])[ending as usize], g.0.len(), if bytes.starts_with(&g.0) { "a prefix" } else { "different bytes" })).fact("role", "raw_stream"));
+    }
+    let mut out = RunOut::ok(true);
+    if ctx.want_sample {
+        out.sample = Some(json!({"scenario": "raw stream read through BufRecvStream", "bytes": total, "ending": (["FIN", "RESET", "connection close", "open, then connection close"])[ending as usize], "interface": (["quic::RecvStream", "tokio AsyncRead (ReadBuf kept across calls)", "futures AsyncRead"])[mode as usize], "read": g.0.len(), "outcome": end}));
+    }
+    out
+}
+
 impl Check for C06 {
     fn id(&self) -> &'static str {
         "C06"
@@ -556,6 +703,10 @@ impl Check for C06 {
         }
     }
     fn run(&self, ctx: &RunCtx) -> RunOut {
+        // one run in sixteen: the raw byte-stream interfaces (what WebTransport streams are read through)
+        if draw(16) == 15 {
+            return run_raw_stream_reader(ctx);
+        }
         let kind = FAULT_KINDS[(ctx.run % FAULT_KINDS.len() as u64) as usize];
         let pos = ((ctx.run / FAULT_KINDS.len() as u64) % MAX_POS) as usize;
         let role_server = draw(2) == 0;
